@@ -347,6 +347,12 @@ class StreamReader:
             set_result(waiter, None)
 
     async def _wait(self, func_name: str) -> None:
+        # The payload error may have been set after this reader was woken
+        # without data (end of an HTTP chunk) but before it ran: at that
+        # moment there is no waiter to hand the error to, and waiting again
+        # would never end.
+        if self._exception is not None:
+            raise self._exception
         if not self._protocol.connected:
             raise RuntimeError("Connection closed.")
 
